@@ -229,6 +229,8 @@ func init() {
 			{"yieldPoints", "verification yield points (hook H2) of worker, workerSearch, Parallelize, Search, in source order; empty when the hooks are not in the tree",
 				yieldPoints(poolFile, "worker", "workerSearch", "Pool.Parallelize", "Pool.Search")},
 			{"uses", "calls of the pool from pkg/math/sample/prime.go", poolUses("pkg/math/sample/prime.go")},
+			{"lockedRead", "(*LockedReader).Read: lock, deferred unlock, one Read of the wrapped reader", funcLines(poolFile, "LockedReader.Read")},
+			{"paillierSearch", "sample.Paillier: ONE locked reader made before the search, used by every invocation of the closure", funcLines("pkg/math/sample/prime.go", "Paillier")},
 		}
 	})
 }
